@@ -1,3 +1,4 @@
+import Insim.Drv.C08
 import Insim.Drv.C10
 import Insim.Drv.C12
 import Insim.Drv.C13
@@ -14,7 +15,7 @@ open Insim.Drv
 
 def dispatch (line : String) : String :=
   let ws := words line
-  let hs : List (List String → Option String) := [C10.handle, C12.handle, C13.handle, C14.handle, C15.handle, C16.handle, C18.handle, Conn.handle]
+  let hs : List (List String → Option String) := [C08.handle, C10.handle, C12.handle, C13.handle, C14.handle, C15.handle, C16.handle, C18.handle, Conn.handle]
   match hs.findSome? (fun h => h ws) with
   | some r => r
   | none => "bad-op"
